@@ -29,7 +29,7 @@ def hash_sources(P):
             if HASH_ITER.match(full):
                 out.append((f, c, short(c['path']) + ' on ' + re.sub(r'^.*::(Hash\w+)::<(.*)>::\w+$', r'\1<\2>', full)[:80]))
             elif cal['path'].endswith('IntoIterator::into_iter') and re.match(r'^&?(mut )?std::collections::Hash(Map|Set)<', g0):
-                out.append((f, c, 'into_iter on ' + g0[:80]))
+                out.append((f, c, 'into_iter on ' + re.sub(r'^&?(mut )?std::collections::(hash_map::|hash_set::)?', '', g0)[:80]))
             elif re.search(r'Iterator::(collect|extend)$|FromIterator::from_iter$', cal['path']) and False:
                 pass
     return out
@@ -177,7 +177,16 @@ def _discharge(ctx, f, c, ce, depth):
     for x in f.exits():
         if x['kind'] in ('err_own', 'err_prop', 'none_prop'):
             continue
-        if flows_as_sequence(expand(f, x['expr']), ce):
+        xe = expand(f, x['expr'])
+        if not flows_as_sequence(xe, ce):
+            # a vector filled by one push per trip of a loop over the value is the same sequence as its collect()
+            try:
+                sc = seq_chain(f, x['expr'])
+                if sc is not None and strip(sc) != strip(x['expr']) and (flows_as_sequence(sc, ce) or flows_as_sequence(expand(f, sc), ce) or flows_as_sequence(sc, expand(f, ce))):
+                    xe = ce
+            except Exception:
+                pass
+        if flows_as_sequence(xe, ce):
             callers = []
             for g in P.fns.values():
                 if g.raw.get('derived'):
@@ -735,6 +744,76 @@ def binding(ctx):
     e = expand(rs, rs.exits()[0]['expr']) if len(rs.exits()) == 1 else None
     ok = False
     det = ''
+    def polarity(cl, depth=0):
+        """True if the closure / function value `cl` tests registry membership of its argument, False if it tests the negation,
+        None otherwise (also through a closure that only calls another closure)"""
+        cl = strip(cl)
+        if depth > 3 or cl[0] not in ('closure', 'fnref') or cl[1] not in P.fns:
+            return None
+        cf = P.fns[cl[1]]
+        ex = cf.exits()
+        if len(ex) != 1 or cf.switches():
+            return None
+        caps = cl[2] if cl[0] == 'closure' and len(cl) > 2 else []
+
+        def of(e):
+            e = strip(e)
+            if is_membership(P, e):
+                return True
+            if e[0] == 'un' and e[1] == 'Not':
+                r = of(e[2])
+                return None if r is None else (not r)
+            if e[0] == 'call' and e[1] in P.fns and P.fns[e[1]].kind == 'Closure':
+                return polarity(('closure', e[1], []), depth + 1)      # a call of a named closure, resolved by the compiler
+            if e[0] == 'call' and re.search(r'ops::(Fn|FnMut|FnOnce)::call(_mut|_once)?$', e[1]) and e[2]:
+                fv = strip(e[2][0])
+                while fv[0] in ('ref', 'deref'):
+                    fv = strip(fv[1])
+                if fv[0] == 'upvar' and fv[1] < len(caps):
+                    inner = strip(caps[fv[1]])
+                    while inner[0] in ('ref', 'deref'):
+                        inner = strip(inner[1])
+                    if inner[0] == 'var':
+                        # the captured closure value: its single definition in the creator
+                        par = P.fns.get(cf.parent)
+                        if par is not None:
+                            ds = par.init_of(inner[1])
+                            if len(ds) == 1:
+                                inner = strip(ds[0])
+                    return polarity(inner, depth + 1)
+            return None
+        return of(expand(cf, ex[0]['expr']))
+
+    def scope_part(it, want_types):
+        """`it` iterates exactly the entries of the scope parameter that are (want_types) / are not registered types, in scope order
+        apart from at most one rev(): partition(..).0 / .1, or filter(scope.iter(), <membership test with that polarity>).
+        Returns (ok, number of rev)"""
+        it = strip(it)
+        revs = 0
+        seen_part = False
+        while True:
+            if it[0] == 'call' and it[2] and re.search(r'(IntoIterator::into_iter|Iterator::copied|Iterator::cloned|slice::<impl \[T\]>::iter|::deref|::as_slice)$', it[3] if len(it) > 3 else it[1]):
+                it = strip(it[2][0])
+                continue
+            if is_call(it, 'Iterator::rev'):
+                revs += 1
+                it = strip(it[2][0])
+                continue
+            if is_call(it, 'Iterator::filter') and len(it[2]) == 2 and not seen_part:
+                if polarity(it[2][1]) is not want_types:
+                    return False, revs
+                seen_part = True
+                it = strip(it[2][0])
+                continue
+            break
+        if it[0] == 'field' and it[2] == ('0' if want_types else '1') and not seen_part:
+            part = strip(it[1])
+            if is_call(part, 'Iterator::partition') and len(part[2]) == 2 and polarity(part[2][1]) is True:
+                src = strip(part[2][0])
+                return (is_call(src, 'slice::<impl [T]>::iter') and strip(src[2][0])[0] == 'arg'), revs
+            return False, revs
+        return (seen_part and it[0] == 'arg'), revs
+
     def stage1_ok(first):
         # the hit of stage 1 is the result of the find itself (possibly mapped to Type::Raw), nothing filters it afterwards
         f0 = strip(first)
@@ -744,17 +823,8 @@ def binding(ctx):
             return False
         fnd = [f0]
         it = fnd[0][2][0]
-        chain = [c_[3] for c_ in calls_in(it)]
-        revs = [c_ for c_ in chain if c_.endswith('Iterator::rev')]
-        part = find_calls(it, 'Iterator::partition')
-        ok1 = len(revs) == 1 and bool(part) and any(isinstance(x, tuple) and x[0] == 'field' and x[2] == '0' for x in walk(it)) and \
-            not any(re.search(r'Iterator::(skip|take|filter|step_by|chain)$', c_) for c_ in chain)
-        if part:
-            pc = part[0][2][1]
-            okp = pc[0] == 'closure' and pc[1] in P.fns and any(is_membership(P, x['expr']) for x in P.fns[pc[1]].exits())
-            src = strip(part[0][2][0])
-            okp = okp and is_call(src, 'slice::<impl [T]>::iter') and strip(src[2][0])[0] == 'arg'
-            ok1 = ok1 and okp
+        okp, nrev = scope_part(expand(rs, it), True)
+        ok1 = okp and nrev == 1
         pr = fnd[0][2][1]
         okn = False
         if pr[0] == 'closure' and pr[1] in P.fns:
@@ -770,13 +840,11 @@ def binding(ctx):
             return False
         a, b = ch[0][2][0], ch[0][2][1]
         root_first = is_call(a, 'iter::once') and bool(find_calls(a, 'ItemPath::empty'))
-        noadapt = not any(re.search(r'Iterator::(rev|skip|take|filter|step_by|map_while|scan|take_while|skip_while|fuse|cycle)$', c_[3]) for c_ in calls_in(b))
         if caps is not None:
-            # the captured module list is partition(..).1
-            mods = any(isinstance(x, tuple) and x[0] == 'upvar' for x in walk(b)) and noadapt and \
-                any(isinstance(x, tuple) and x[0] == 'field' and x[2] == '1' and find_calls(x, 'Iterator::partition') for c_ in caps for x in walk(c_))
-        else:
-            mods = noadapt and any(isinstance(x, tuple) and x[0] == 'field' and x[2] == '1' and find_calls(x, 'Iterator::partition') for x in walk(b))
+            # in the or_else closure the module list (or the scope) is a captured value: put it back
+            b = map_tree(b, lambda y: (strip(caps[y[1]]) if (isinstance(y, tuple) and y and y[0] == 'upvar' and y[1] < len(caps)) else y))
+        okm, nrev2 = scope_part(expand(rs, b), False)
+        mods = okm and nrev2 == 0
         fnd2 = find_calls(ce, 'Iterator::find')
         jn = False
         for x in walk(ce):
